@@ -33,6 +33,7 @@ type exprCase struct {
 	WarmValues map[string]model.AV `json:"warmValues,omitempty"`
 	WarmItem   model.Item          `json:"warmItem,omitempty"` // the item the warm expression is evaluated on (default: Item)
 	RV         string              `json:"rv,omitempty"`       // C07 API sample: the ReturnValues parameter of the UpdateItem
+	Debug      bool                `json:"debug,omitempty"`    // C07 API sample: ActivateDebug() before the table is created
 
 	lang *interpreter.Language // one instance per case (nil: a fresh one per call)
 }
@@ -590,6 +591,15 @@ func c07API(c exprCase, res model.UpdateResult) *failure {
 		if d.Name() == "v2" && open("F-V2EMPTY") && (hasEmptyLM(res.Item) || hasEmptyLM(c.Item)) {
 			continue
 		}
+		if c.Debug {
+			// debug mode only prints; results must not depend on it
+			switch x := d.(type) {
+			case *drv.V1:
+				x.C.ActivateDebug()
+			case *drv.V2:
+				x.C.ActivateDebug()
+			}
+		}
 		d.Apply(model.Op{Kind: "CreateTable", Schema: sTable("tbl", false)})
 		key := model.Item{"pk": model.Str("the-key")}
 		want := model.CloneItem(res.Item)
@@ -629,7 +639,7 @@ func c07API(c exprCase, res model.UpdateResult) *failure {
 	return nil
 }
 
-const ruleC07 = "rapid: (update AST, item or absent item, bindings) - 1-4 clauses (SET with values, paths, + and -, if_not_exists, list_append; REMOVE of attributes, map members and list elements; ADD to numbers and sets; DELETE from sets) with 1-4 actions over non-overlapping targets, on items holding nested documents, lists and sets plus untargeted attributes of every type. In an eighth of the cases a twin that differs only in the letter case of one identifier is applied first (to a copy of the item) on the same interpreter instance. Oracle: the reference update semantics vs interpreter.Language.Update called directly - success/rejection, and on success equality of the entire item (targeted values, removed attributes gone, every other attribute unchanged by value); on rejection the item is unchanged; for a tenth of the cases also UpdateItem (half of them with an explicit ReturnValues parameter) + GetItem through both SDK clients, on an existing item and on an absent key. Non-trivial = >= 2 actions or a nested / list target; distinct = hash of (expression, item, bindings)."
+const ruleC07 = "rapid: (update AST, item or absent item, bindings) - 1-4 clauses (SET with values, paths, + and -, if_not_exists, list_append; REMOVE of attributes, map members and list elements; ADD to numbers and sets; DELETE from sets) with 1-4 actions over non-overlapping targets, on items holding nested documents, lists and sets plus untargeted attributes of every type. In an eighth of the cases a twin that differs only in the letter case of one identifier is applied first (to a copy of the item) on the same interpreter instance. Oracle: the reference update semantics vs interpreter.Language.Update called directly - success/rejection, and on success equality of the entire item (targeted values, removed attributes gone, every other attribute unchanged by value); on rejection the item is unchanged; for a tenth of the cases also UpdateItem (half of them with an explicit ReturnValues parameter, a quarter with the client's debug mode on) + GetItem through both SDK clients, on an existing item and on an absent key. Non-trivial = >= 2 actions or a nested / list target; distinct = hash of (expression, item, bindings)."
 
 // TestC07 decides property C07.
 func TestC07(t *testing.T) {
@@ -653,6 +663,7 @@ func TestC07(t *testing.T) {
 		if len(ec.Values) == 0 {
 			ec.Values = nil
 		}
+		ec.Debug = ec.API && rapid.IntRange(0, 3).Draw(rt, "apiDebug") == 2
 		if ec.API && rapid.Bool().Draw(rt, "apiReturnValues") {
 			ec.RV = rapid.SampledFrom([]string{"NONE", "ALL_OLD", "UPDATED_OLD", "ALL_NEW", "UPDATED_NEW"}).Draw(rt, "rv")
 		}
